@@ -6,6 +6,7 @@ because they compare equal to / are as falsy as a legal value.  Five keys:
   coerced-subtask-name         yielded {'name': 5 / True / ['q'] / 1.5 / b's', ...}
   group-attrs-actions-ignored  yielded {'name': None, 'actions': 5 / 'echo' / {...}}
 Each must raise InvalidTask/InvalidDodoFile.  Exit 1 if ANY is accepted."""
+import sys
 from _util import *
 from doit import loader
 from doit.control import TaskControl
@@ -49,6 +50,11 @@ for v in (5, 'echo', {'a': 1}):
     CASES.append(('group-attrs-actions-ignored', 'actions=%r' % (v,),
                   yielded({'name': None, 'actions': v}, {'name': 's', 'actions': [A]})))
 
+# optional arguments: only these finding keys (e.g. `F-C18-silent-coercions.py coerced-verbosity`)
+ONLY = [a for a in sys.argv[1:] if not a.startswith('-')]
+if ONLY:
+    CASES = [c for c in CASES if c[0] in ONLY]
+
 accepted = {}
 for key, label, ns in CASES:
     res = outcome(ns)
@@ -59,7 +65,7 @@ for key, label, ns in CASES:
 with scratch():
     code, o, e = run_doit(yielded({'name': 5, 'actions': [A], 'verbosity': True,
                                    'getargs': 0, 'basename': []}), ['list', '--all'])
-if code != 3 or 'Traceback' in e or 'ERROR' not in e:
+if not ONLY and (code != 3 or 'Traceback' in e or 'ERROR' not in e):
     accepted.setdefault('cli', []).append('doit list --all exit=%s stdout=%r' % (code, o))
 
 # legal values are still accepted
